@@ -353,3 +353,117 @@ h!(c06_last_own_notar_a, 2);
 h!(c06_last_own_notar_b, 3);
 h!(c06_last_own_skip, 4);
 h!(c06_last_parent_certified, 5);
+
+// ---------------------------------------------------------------------------------------------
+// Safe-to-skip threshold kernel (`c06_s2s_*`), counters decoupled from the stored votes.
+//
+// The running totals the real code keeps (skip, skip-fallback, notar per block, notar-or-skip,
+// top-notar) are arbitrary 16-bit values consistent with one another; of the stored votes only
+// the node's own notar vote (present or not, fixed per harness) and the new vote exist.  No block
+// is pending for safe-to-notar (the set is concretely empty) and the skip certificate is present,
+// so the only thing one skip / skip-fallback / notar vote can raise is safe-to-skip.  Reference,
+// from the property statement: s2s := the node notarized some block in the slot  AND
+// skip stake + notar stake of all but the most-voted block >= 40 %  -  skip-FALLBACK stake does
+// not count.  The event must be raised exactly when s2s becomes true and was not raised before.
+// KIND: 2 skip vote, 3 skip-fallback vote, 0 notar vote for block A (all by validator 0).
+// OWN: 0 the node has cast no notar vote, 1 it holds a stored notar vote (for B), 2 the new vote IS
+// the node's own notar vote (KIND 0 only).
+// ---------------------------------------------------------------------------------------------
+fn s2s_thr_body<const KIND: u8, const OWN: u8, const CAN: bool>() {
+    let total = vs::any_u16() as u64;
+    let stake = vs::any_u16() as u64;
+    let (skip, sf, n_a, n_b) = (vs::any_u16() as u64, vs::any_u16() as u64, vs::any_u16() as u64, vs::any_u16() as u64);
+    let already = vs::any_bool();
+    vs::assume(total > 0 && stake <= total);
+    // each validator casts one initial vote (skip or notar) and possibly a skip-fallback vote
+    vs::assume(skip + n_a + n_b + if KIND == 3 { 0 } else { stake } <= total);
+    vs::assume(sf + if KIND == 3 { stake } else { 0 } <= total);
+    let t0 = Totals { notar: [0, n_a, n_b], nf: [0, 0, 0], skip, sf, fin: 0, total };
+    let own_notar0 = OWN == 1;
+    let cond0 = own_notar0 && t0.reaches(skip + n_a + n_b - t0.top_notar(), 2);
+    // raised as soon as the condition holds, never without it
+    vs::assume(already == cond0);
+
+    let own = if OWN == 2 { 0 } else { 1 };
+    let stakes: [u64; 2] = [stake, total - stake];
+    let fx = fixture(&stakes, own);
+    let mut st = SlotState::new(Slot::new(SLOT), fx.epoch.clone());
+    *st.voted_stakes.notar.get_or_insert_with(&block_hash(1), Stake::default) = Stake::new(n_a);
+    *st.voted_stakes.notar.get_or_insert_with(&block_hash(2), Stake::default) = Stake::new(n_b);
+    st.voted_stakes.skip = Stake::new(skip);
+    st.voted_stakes.skip_fallback = Stake::new(sf);
+    st.voted_stakes.notar_or_skip = Stake::new(skip + n_a + n_b);
+    st.voted_stakes.top_notar = Stake::new(t0.top_notar());
+    if OWN == 1 {
+        st.votes.notar[1] = Some(NotarVote::new(Slot::new(SLOT), block_hash(2), &fx.sks[1], ValidatorIndex::new(1)));
+    }
+    // every certificate is already there: this vote creates none
+    let vals = fx.epoch.epoch_info().validators();
+    let mut k = 0u8;
+    while k < 5 {
+        st.add_cert(crate::consensus::cert::kani_certstub::opaque(k, Slot::new(SLOT), block_hash(1), vals, &fx.sks[1]));
+        k += 1;
+    }
+    // safe-to-notar is not the subject: already signalled for both blocks, nothing pending
+    st.sent_safe_to_notar.insert(block_hash(1));
+    st.sent_safe_to_notar.insert(block_hash(2));
+    st.sent_safe_to_skip = already;
+
+    let (_c, events, _r) = st.add_vote(mk_vote(&fx, 0, KIND, 1), Stake::new(stake));
+
+    let skip1 = skip + if KIND == 2 { stake } else { 0 };
+    let n_a1 = n_a + if KIND == 0 { stake } else { 0 };
+    let top1 = if n_a1 > n_b { n_a1 } else { n_b };
+    let own_notar1 = OWN == 1 || OWN == 2;
+    let cond1 = own_notar1 && t0.reaches(skip1 + n_a1 + n_b - top1, 2);
+    let mut n_s2s = 0u8;
+    for e in events.iter() {
+        match e {
+            PoolEvent::SafeToSkip(s) => {
+                vcheck!(*s == Slot::new(SLOT), "safe-to-skip for the wrong slot");
+                n_s2s += 1;
+            }
+            _ => vcheck!(false, "unexpected event"),
+        }
+    }
+    vcheck!(n_s2s == (cond1 && !already) as u8, "safe-to-skip not signalled exactly when its condition became true (missing, early, or repeated)");
+    vcheck!(st.sent_safe_to_skip == (cond1 || already), "safe-to-skip bookkeeping differs from the condition");
+    if CAN {
+        vcover!(n_s2s == 1, "safe-to-skip is signalled");
+        vcover!(n_s2s == 0 && !already, "nothing is signalled, the condition does not hold");
+    } else {
+        // inputs that can never raise the signal: stake that must not count reaches the threshold
+        let with_sf = skip1 + sf + if KIND == 3 { stake } else { 0 } + n_a1 + n_b - top1;
+        vcover!(n_s2s == 0 && !already && t0.reaches(with_sf, 2), "nothing is signalled although skip-fallback stake (or a missing own notar vote) would complete the threshold");
+        vcover!(n_s2s == 0 && !t0.reaches(with_sf, 2), "nothing is signalled, far from the threshold");
+    }
+    std::mem::forget(st);
+    std::mem::forget(fx);
+    std::mem::forget(events);
+    std::mem::forget(_c);
+    std::mem::forget(_r);
+}
+macro_rules! s2st {
+    ($name:ident, $kind:literal, $own:literal, $can:literal) => {
+        #[cfg_attr(kani, kani::proof)]
+        #[cfg_attr(kani, kani::stub(crate::crypto::aggsig::SecretKey::sign, crate::consensus::kani_fix::sign_stub))]
+        #[cfg_attr(kani, kani::stub(crate::consensus::pool::slot_state::SlotState::check_safe_to_notar, crate::consensus::pool::slot_state::kani_c06::s2n_cut))]
+        #[cfg_attr(kani, kani::unwind(6))]
+        #[cfg_attr(verif_replay, test)]
+        fn $name() {
+            s2s_thr_body::<$kind, $own, $can>()
+        }
+    };
+}
+/// Stub for `SlotState::check_safe_to_notar` in the safe-to-skip kernels (Kani only): both blocks
+/// are already signalled, so the real code does not call it; CBMC cannot see that syntactically.
+#[cfg(kani)]
+pub(crate) fn s2n_cut(_this: &mut SlotState, _hash: BlockHash) -> SafeToNotarStatus {
+    SafeToNotarStatus::AwaitingVotes
+}
+s2st!(c06_s2s_skip_own1, 2, 1, true);
+s2st!(c06_s2s_notar_own1, 0, 1, true);
+s2st!(c06_s2s_notar_own2, 0, 2, true);
+// cannot raise the signal: the cover "is signalled" is replaced (see spec: covers)
+s2st!(c06_s2s_sfallback_own1, 3, 1, false);
+s2st!(c06_s2s_skip_own0, 2, 0, false);
